@@ -327,17 +327,17 @@ theorem fscAll_invol (P : Prims) : ∀ (cs : List (List UInt8)) (s : FSC),
 
 /-- the packets CompleteHandshake sends after the terminator: decoys (zero contents, ignore bit),
 then the empty version packet; the garbage is the AAD of the first of them -/
-def hsPkts : List UInt8 → List Nat → List Pkt
+def hsPkts : List UInt8 → List (List UInt8) → List Pkt
   | aad, [] => [⟨[], aad, false⟩]
-  | aad, n :: ns => ⟨List.replicate n 0, aad, true⟩ :: hsPkts [] ns
+  | aad, n :: ns => ⟨n, aad, true⟩ :: hsPkts [] ns
 
-theorem hsPkts_shape : ∀ (aad : List UInt8) (ns : List Nat),
+theorem hsPkts_shape : ∀ (aad : List UInt8) (ns : List (List UInt8)),
     ∃ ds p, hsPkts aad ns = ds ++ [p] ∧ (∀ q ∈ ds, q.ignore = true) ∧ p.ignore = false ∧
       ds.length = ns.length ∧ (ds ++ [p]).map (·.aad) = aad :: List.replicate ds.length []
   | aad, [] => ⟨[], ⟨[], aad, false⟩, rfl, by simp, rfl, rfl, rfl⟩
   | aad, n :: ns => by
     obtain ⟨ds, p, he, hi, hp, hl, ha⟩ := hsPkts_shape [] ns
-    refine ⟨⟨List.replicate n 0, aad, true⟩ :: ds, p, ?_, ?_, hp, ?_, ?_⟩
+    refine ⟨⟨n, aad, true⟩ :: ds, p, ?_, ?_, hp, ?_, ?_⟩
     · simp only [hsPkts, he, List.cons_append]
     · intro q hq
       rcases List.mem_cons.mp hq with rfl | hq
@@ -346,7 +346,7 @@ theorem hsPkts_shape : ∀ (aad : List UInt8) (ns : List Nat),
     · simp [hl]
     · simp only [List.cons_append, List.map_cons, List.length_cons, List.replicate_succ, ha]
 
-theorem sendDecoys_eq (P : Prims) : ∀ (ns : List Nat) (d : Dir) (aad acc bytes : List UInt8) (d' : Dir),
+theorem sendDecoys_eq (P : Prims) : ∀ (ns : List (List UInt8)) (d : Dir) (aad acc bytes : List UInt8) (d' : Dir),
     sendDecoys P d aad ns acc = .ok (bytes, d') →
     ∃ w, sendAll P d (hsPkts aad ns) = some (w, d') ∧ bytes = acc ++ w
   | [], d, aad, acc, bytes, d', h => by
@@ -360,7 +360,7 @@ theorem sendDecoys_eq (P : Prims) : ∀ (ns : List Nat) (d : Dir) (aad acc bytes
       simp only [hsPkts, sendAll, h1, List.append_nil, h.2]
   | n :: ns, d, aad, acc, bytes, d', h => by
     unfold sendDecoys at h
-    cases h1 : sendPacket P d (List.replicate n 0) aad true with
+    cases h1 : sendPacket P d n aad true with
     | none => rw [h1] at h; exact absurd h (by simp)
     | some r =>
       obtain ⟨b, d1⟩ := r
@@ -405,10 +405,10 @@ theorem sendAll_length_ge (P : Prims) : ∀ (pkts : List Pkt) (d : Dir) (w : Lis
 garbage), its terminator, any number of decoys and its version packet — and leaves the receive
 ciphers in the peer's send state. -/
 theorem complete_ok (P : Prims) (hmac : ∀ k m, (P.mac k m).length = 16) (s : Session)
-    (myGarbage : List UInt8) (myDecoys : List Nat) (written : List UInt8)
+    (myGarbage : List UInt8) (myDecoys : List (List UInt8)) (written : List UInt8)
     (mb : List UInt8) (send' : Dir) (hmine : sendDecoys P s.send myGarbage myDecoys [] = .ok (mb, send'))
     (G : List UInt8) (hG : G.length ≤ 4095) (hT : s.recvTerm.length = 16)
-    (peerDecoys : List Nat) (pb : List UInt8) (d' : Dir)
+    (peerDecoys : List (List UInt8)) (pb : List UInt8) (d' : Dir)
     (hpeer : sendDecoys P s.recv G peerDecoys [] = .ok (pb, d')) (rest : List UInt8)
     (hno : ∀ i, i < G.length → ((G ++ (s.recvTerm ++ (pb ++ rest))).drop i).take 16 ≠ s.recvTerm) :
     let out := completeAfterKeys P s myGarbage myDecoys written (G ++ (s.recvTerm ++ (pb ++ rest)))
